@@ -45,7 +45,7 @@ type tiers struct {
 
 func tier(t string) tiers {
 	if t == "thorough" {
-		return tiers{Gen: 120000, Vectors: 24, MaxOut: 512, Budget: 20000, ExtraInputs: 3}
+		return tiers{Gen: 400000, Vectors: 24, MaxOut: 512, Budget: 20000, ExtraInputs: 3}
 	}
 	return tiers{Gen: 40000, Vectors: 6, MaxOut: 64, Budget: 5000, ExtraInputs: 2}
 }
